@@ -135,7 +135,8 @@ func c02Build(t testing.TB, variant string) *c02World {
 	}
 	w.att2Chans = second
 	// access() grant of channel A to uAcc from a document in a channel nobody has
-	rt.PutDoc("grantdoc", `{"channels":["G"],"grant_user":"uAcc","grant_chan":"A"}`)
+	gv := rt.PutDoc("grantdoc", `{"channels":["G"],"grant_user":"uAcc","grant_chan":"A","secret":"`+c02Marker("grantdoc", "1")+`"}`)
+	w.add("grantdoc", "1", gv.RevTreeID, []string{"G"}, false)
 	if variant == "principals-last" {
 		mkPrincipals()
 	}
